@@ -4,6 +4,7 @@ import (
 	"fmt"
 	"go/token"
 	"go/types"
+	"morlockverif/checker/internal/core"
 	"sort"
 	"strings"
 
@@ -433,7 +434,7 @@ func c02Lockstep(c *Ctx, b *boardModel) {
 		good := stt.NumFields() == 4
 		detail := ""
 		for i := 0; i < stt.NumFields(); i++ {
-			fname := stt.Field(i).Name()
+			fname := core.FieldName(stt.Field(i))
 			old := "." + fname + "(.rotated(" + recv + "))"
 			s, isSym := rs.F[i].(*absint.Sym)
 			if !isSym || s.Op != "^" || len(s.Args) != 2 {
@@ -474,7 +475,7 @@ func c02Lockstep(c *Ctx, b *boardModel) {
 				detail = fmt.Sprintf("view %s is updated through index table %s", f, t)
 			}
 		}
-		xorFn := c.P.Func("pkg/board", "RotatedBitboard", "Xor")
+		xorFn := c.find("pkg/board", "RotatedBitboard", "Xor")
 		w := where
 		if xorFn != nil {
 			w = c.pos(xorFn.Pos())
@@ -505,20 +506,20 @@ func c02Lockstep(c *Ctx, b *boardModel) {
 				continue
 			}
 		}
-		offenders = append(offenders, fmt.Sprintf("%s writes %s.%s at %s", c.P.FuncName(fs.Fn), fs.Named.Obj().Name(), fs.Field, c.pos(fs.Pos)))
+		offenders = append(offenders, fmt.Sprintf("%s writes %s.%s at %s", c.P.FuncName(fs.Fn), core.ObjName(fs.Named.Obj()), fs.Field, c.pos(fs.Pos)))
 	}
 	r.Check(len(offenders) == 0, "R02-lockstep", "only xor writes Position.pieces/rotated", where, "", strings.Join(offenders, "; "))
 	r.Infof("R02-lockstep: %d stores to Position/RotatedBitboard fields inspected", n)
 
 	// (4) NewRotatedBitboard folds Xor
-	if nrb := c.P.Func("pkg/board", "", "NewRotatedBitboard"); nrb != nil {
-		xorFn := c.P.Func("pkg/board", "RotatedBitboard", "Xor")
+	if nrb := c.find("pkg/board", "", "NewRotatedBitboard"); nrb != nil {
+		xorFn := c.find("pkg/board", "RotatedBitboard", "Xor")
 		calls := callsTo(nrb, xorFn)
 		r.Check(len(calls) >= 1, "R02-lockstep", "board.NewRotatedBitboard builds the views through Xor", c.pos(nrb.Pos()), "", "constructor does not call RotatedBitboard.Xor")
 	}
 	// (5) every view is read back consistently: Mask()/All() return the identity view
 	for _, nm := range [][2]string{{"RotatedBitboard", "Mask"}, {"Position", "All"}} {
-		fn := c.P.Func("pkg/board", nm[0], nm[1])
+		fn := c.find("pkg/board", nm[0], nm[1])
 		if fn == nil {
 			continue
 		}
